@@ -69,7 +69,7 @@ def harvested_client_extensions():
         seen = {}
         for cls, vs in sorted(sweep.library_vectors().items(), key=lambda kv: sweep.qualname(kv[0])):
             name = sweep.qualname(cls)
-            if not name.startswith('cryptoparser.tls.extension.TlsExtension') or 'Server' in name or 'Variant' in name:
+            if not name.startswith('cryptoparser.tls.extension.TlsExtension') or 'Variant' in name:     # whatever the client variant accepts
                 continue
             for v in vs:
                 if len(v) >= 4 and int.from_bytes(v[2:4], 'big') == len(v) - 4:
@@ -94,7 +94,7 @@ def harvested_server_extensions():
         seen = {}
         for cls, vs in sorted(sweep.library_vectors().items(), key=lambda kv: sweep.qualname(kv[0])):
             name = sweep.qualname(cls)
-            if not name.startswith('cryptoparser.tls.extension.TlsExtension') or 'Client' in name or 'Variant' in name:
+            if not name.startswith('cryptoparser.tls.extension.TlsExtension') or 'Variant' in name:     # whatever the server variant accepts
                 continue
             for v in vs:
                 if len(v) >= 4 and int.from_bytes(v[2:4], 'big') == len(v) - 4:
